@@ -335,6 +335,7 @@ MUT_KINDS = ['append_gate', 'insert_gate', 'pop', 'replace_gate', 'renumber', 'u
              'batch_pop', 'straighten', 'imul', 'iadd', 'extend', 'remove']
 
 
+@rt.natively
 def circ_run(xs: list, av: list) -> bool:
     rt.begin()
     S = rt.SHARD
